@@ -84,8 +84,9 @@ fn vec3(rng: &mut Rng) -> [u32; 3] {
 }
 
 fn wmo_name(rng: &mut Rng) -> String {
-    const DIRS: &[&str] = &["World\\wmo\\Dungeon\\", "world\\wmo\\kalimdor\\", "WORLD\\WMO\\", "w\\"];
-    format!("{}KL_{:04}_{}.wmo", rng.pick(DIRS), rng.below(10000), rng.below(7))
+    // file names are byte strings in the files and Strings in the library: non-ASCII (UTF-8) names must survive as well
+    const DIRS: &[&str] = &["World\\wmo\\Dungeon\\", "world\\wmo\\kalimdor\\", "WORLD\\WMO\\", "w\\", "World\\wmo\\Höhle\\", "世界\\wmo\\"];
+    format!("{}KL_{:04}_{}{}.wmo", rng.pick(DIRS), rng.below(10000), rng.below(7), if rng.below(5) == 0 { "_é" } else { "" })
 }
 
 /// Chunk walker written against the format description: [magic(4, reversed on disk)] [size u32 LE] [payload].
@@ -853,7 +854,7 @@ struct VisM {
     radius: u32,
 }
 
-#[derive(Default)]
+#[derive(Default, Clone)]
 struct WdlModel {
     ver: usize,
     /// (x, y) -> 289 outer + 256 inner heights
@@ -1294,6 +1295,27 @@ fn wdl_case(c: &mut Case, s: &WdlSpec, rng: &mut Rng) {
                 c.violate(format!("wdl|second-write-differs|{chunk}|{era}"), format!("write(parse(write(x))) (instance {pi}) differs from write(x) at byte {at} ({} vs {} bytes), in/after chunk {chunk}", a.len(), b.len()), s.desc());
             }
             Err(e) => c.violate(format!("wdl|second-write-failed|{era}"), format!("writing the parsed file failed: {e}"), s.desc()),
+        }
+    }
+
+    // ---- load, edit, save: a parsed file whose model names are changed must be written as edited (the parsed object may carry
+    // material from the file it came from; what is written is the object's content)
+    if let Ok(mut edited) = wdl_parse(WdlParser::with_version(ver), &a) {
+        if !edited.wmo_filenames.is_empty() {
+            let mut m2 = m.clone();
+            let new_name = format!("World\\wmo\\Edited\\renamed_{}.wmo", rng.below(1000));
+            if !edited.wmo_filenames.is_empty() {
+                edited.wmo_filenames[0] = new_name.clone();
+                m2.names[0] = new_name;
+                c.count("wdl_edit_stage|renamed", 1);
+                match wdl_write(ver, &edited).and_then(|b| wdl_parse(WdlParser::with_version(ver), &b)) {
+                    Ok(back) => match wdl_content_diff(&back, &m2, true) {
+                        None => c.count("wdl_edit_roundtrip_equal", 1),
+                        Some((k, t)) => c.violate(format!("wdl|edit-roundtrip|{k}|{era}"), format!("parse -> rename a model -> write -> parse ({vname}): {t}"), s.desc()),
+                    },
+                    Err(e) => c.violate(format!("wdl|edit-roundtrip|failed|{era}"), format!("parse -> rename a model -> write -> parse ({vname}) failed: {e}"), s.desc()),
+                }
+            }
         }
     }
 
